@@ -234,3 +234,46 @@ def c10(run, args):
                        "stuttering step: same ids, order, metadata, seen flags, sizes, content; the reopened store may be configured with another cap, which applies from the next delivery on), plus long simulated histories with many reopen points; "
                        "all operations after a reopen (deliveries, cap eviction, retention scan) are validated against the contract like any other")
     run.assumptions += ["quick/thorough: reopen = a new file.Store on the same path in the same process; the id counter restarting with the process is covered by the thorough-tier child-process variant when built"]
+
+
+# --------------------------------------------------------------------------- C16
+def c16(run, args):
+    if args.replay:
+        return replay_file(run, args)
+    quick = run.tier == "quick"
+    rng = random.Random(run.seed)
+    vh = run.build_harness()
+    run.model_check("MCMailstore", MC_CFG % dict(caps="0, 1, 2", limits="0, 3", maxadds=3 if quick else 4), label="MCMailstore(caps x limits)")
+    bfs = run.generate("GenMailstore", gen_cfg(2, [1, 2], [1], 4 if quick else 5, scan=True, seen=False))
+    sim = run.generate("GenMailstore", gen_cfg(3, [1, 2, 3], [1], 40 if quick else 100, scan=True, seen=False),
+                       simulate={"num": 100, "depth": 41 if quick else 101})
+    sim = sim[:40 if quick else 400]
+    count_distinct(run, bfs + sim)
+    run.cov["exhaustive"] = True
+    mem_cfgs = [(c, k) for c in (0, 1, 2) for k in (0, 4)]
+    file_cfgs = [(c, 0) for c in (0, 1, 2)]
+
+    def cfgs_for(i, st):
+        all_ = mem_cfgs if st == "mem" else file_cfgs
+        return all_ if not quick else [all_[(i + run.seed) % len(all_)]]
+
+    plain = [["alpha", "beta", "gamma"], ["inbox1", "inbox2", "inbox3"]]
+
+    def mk(abstract, label, hold, probe_every):
+        out = []
+        for i, ops in enumerate(abstract):
+            for st in ("mem", "file"):
+                for (cap, maxkb) in cfgs_for(i, st):
+                    o = [dict(x, size=x["size"] * 1000) for x in ops]
+                    out.append({"id": "%s-%d-%s-c%dk%d-h%d" % (label, i, st, cap, maxkb, hold), "store": st, "cap": cap, "maxkb": maxkb,
+                                "names": plain[i % 2], "events": True, "hold_ms": hold, "ops": o})
+        return out
+    # (a) exactly-once: no hold; (b) ordering: every listener invocation takes 2 ms while the next operations run
+    beh = mk(bfs, "bfs", 0, 0) + mk(bfs[run.seed % 7::7], "ord", 2, 0) + mk(sim, "sim", 0, 0) + mk(sim[::4], "simord", 1, 0)
+    run.cov["samples"] = [bfs[len(bfs) // 3], sim[0][:12]] if bfs and sim else []
+    replay_and_validate(run, vh, beh, "c16", "C16 after-events")
+    run.cov["rule"] = ("the C07/C08 histories (adds through StoreManager.Deliver, removals by delete, purge, cap, size limit, retention scan) on both stores with every limit combination; "
+                       "a listener on both after-event brokers records every invocation with entry/exit stamps from one counter; at the end of each history TLC checks that the multiset of events "
+                       "equals what the contract's state changes require (exactly one stored per entering, one deleted per leaving message), that no two invocations overlap, stored precedes deleted "
+                       "per message, and stored events of one mailbox arrive in arrival order; in the ordering variants each invocation takes 1-2 ms so that the following operations emit while it runs")
+    run.assumptions += ["quiescence: the history ends when no invocation started or finished for 5 ms", "size limit 4 KiB with messages of 1-3 KB so that a new message always survives its own delivery"]
